@@ -36,6 +36,7 @@ def register(reg):
     st.ghost[key] = result
   c.hooks['after_call'] = expiry_is_monotone
   c = reg.contract(T, 'PolledTimeout.remaining_ms', props=()); c.returns('val{none,int,float}').modifies(); c.trusted('wall clock')
+  c = reg.contract(T, 'PolledTimeout.remaining', props=()); c.returns('val{none,int,float}').modifies(); c.trusted('wall clock')
   c = reg.contract(T, 'PolledTimeout.from_millis', props=()); c.param('timeout_ms', 'val').returns('ref:PolledTimeout').modifies()
   c.trusted('timeout construction')
 
